@@ -119,7 +119,10 @@ impl Report {
         match self.violations.get_mut(&key) {
             Some((v, n)) => {
                 *n += 1;
-                // keep the smallest replay so the reported case is deterministic and short
+                if *n > 200 {
+                    return;
+                }
+                // keep the smallest replay (among the first 200 occurrences per worker) so the reported case is short
                 let new_s = replay.to_string();
                 let old_s = v.replay.to_string();
                 if (new_s.len(), &new_s) < (old_s.len(), &old_s) {
